@@ -16,8 +16,9 @@ type Scanner struct {
 	R      []rune
 	I      int
 	Reads  int
-	FailAt int  // >= 0: ReadRune fails with ErrInjected once I >= FailAt
-	Once   bool // the failure happens once (consuming nothing), then the reader recovers
+	FailAt int   // >= 0: ReadRune fails with ErrInjected once I >= FailAt
+	Once   bool  // the failure happens once (consuming nothing), then the reader recovers
+	Err    error // the error of a failing read (nil: ErrInjected)
 	Failed bool
 	Frozen bool // set by the harness when the call has returned
 	Late   int  // reads/unreads after Frozen
@@ -40,6 +41,9 @@ func (s *Scanner) ReadRune() (rune, int, error) {
 	s.Reads++
 	if s.FailAt >= 0 && s.I >= s.FailAt && !(s.Once && s.Failed) {
 		s.Failed = true
+		if s.Err != nil {
+			return 0, 0, s.Err
+		}
 		return 0, 0, ErrInjected
 	}
 	if s.I >= len(s.R) {
@@ -122,6 +126,9 @@ var Templates = []string{
 	"((1 + 2))",
 	"for i in a b; do c; done",
 	"for i do c; done",
+	"for ij in a; do b; done",
+	"fg() { a; }",
+	"x1=a y_2=b c",
 	"for i\ndo\nc\ndone",
 	"case x in a) b;; c|d) e;; esac",
 	"case x in (a) b; esac",
@@ -138,6 +145,12 @@ var Templates = []string{
 	"a $(b c) `d e`",
 	"a $((1+2)) b",
 	"a <<E\nx $y\nE\n",
+	"a <<E\nE\n",
+	"a <<E <<-F; b\nE\n\tF\n",
+	"{ a <<E\nE\n}",
+	"a \"$@$@\" \"${@}$*\" $*$@ \"$*$*\"",
+	"((a +\n     -1))",
+	"x $((1 -\n        -b))",
 	"a <<-E\n\tx\nE\n",
 	"a <<'E'\nx $y\nE\n",
 	"a <<E; b <<F\n1\nE\n2\nF\n",
